@@ -59,8 +59,28 @@ func caseC15(c *Ctx) {
 	rich := false
 	for cyc := 0; cyc < cycles && !a.Failed(); cyc++ {
 		// H_k on A
-		for i := 0; i < p.Steps && !a.Failed(); i++ {
-			a.Do(g.Next())
+		if rels := g.relsUsed(); c.Case%6 == 4 && cyc == 0 && len(rels) > 0 {
+			// the first reset hits a relation node holding exactly 32, 64 or 96 non-empty tables (whole storage pages)
+			// and nothing else; the random history starts after it
+			rel := Pick(c.R, rels)
+			ids := append(g.subsetAny(g.nonRels(), 2), rel)
+			k := 32 * (1 + c.R.Intn(3))
+			parents := []ecs.Entity{}
+			for i := 0; i < k && !a.Failed(); i++ {
+				if out := a.Do(&Op{K: "NewEntity"}); len(out.Ents) == 1 {
+					parents = append(parents, out.Ents[0])
+				}
+			}
+			for _, pe := range parents {
+				for j := 0; j < 1+c.R.Intn(2) && !a.Failed(); j++ {
+					a.Do(&Op{K: "BuilderNew", Add: ids, Rel: ip(rel), T: entP(pe)})
+				}
+			}
+			a.Cov.N["reset_of_node_with_whole_pages_of_tables"]++
+		} else {
+			for i := 0; i < p.Steps && !a.Failed(); i++ {
+				a.Do(g.Next())
+			}
 		}
 		if a.Failed() {
 			break
